@@ -12,7 +12,7 @@
    own ancestor" hold by construction); the correspondence compares them with
    the implementation's [_parent]/[_children]/[_tree] after every step. *)
 From Coq Require Import List ZArith Bool Arith Permutation.
-From NT Require Import Sx Rose Surgery Machine WF PreserveOps PreserveSort PreserveCopy PreserveMore PreserveRelabel PreserveKeepClones Invariant CaseMut CaseWF.
+From NT Require Import Sx Rose Surgery Machine WF PreserveSteps PreserveOps PreserveSort PreserveCopy PreserveMore PreserveRelabel PreserveKeepClones Invariant CaseMut CaseWF.
 Import ListNotations.
 
 (* ---- the checker used by the correspondence decides WF ---- *)
@@ -128,6 +128,17 @@ Theorem C01_model_flags_true : forall c : mcase, forallb (fun b => b) (wf_flags 
 Proof. exact wf_flags_true. Qed.
 Print Assumptions C01_model_flags_true.
 
+(* a step only ever adds freshly allocated identities ([Fr]); identities are never reused *)
+Theorem C01_step_frame : forall w o, WFw w ->
+  next w <= next (snd (step w o)) /\
+  forall m, In m (all_ids (snd (step w o))) -> In m (all_ids w) \/ next w <= m.
+Proof. intros w o H. exact (proj2 (WFx_step w o H)). Qed.
+Print Assumptions C01_step_frame.
+
+Theorem C01_never_comes_back : forall ops w m, WFw w -> m < next w -> ~ In m (all_ids w) -> ~ In m (all_ids (run ops w)).
+Proof. exact never_comes_back. Qed.
+Print Assumptions C01_never_comes_back.
+
 (* ---- corollaries spelled out ---- *)
 (* the tree's node count (= len(_node_by_id)) is the number of reachable nodes *)
 Theorem C01_count : forall t, WF t ->
@@ -145,6 +156,13 @@ Theorem C01_removed_gone : forall w ti n t s,
     forall m, In m (ids_t s) -> ~ In m (ids (forest_of t')) /\ ~ In m (reg t').
 Proof. exact removed_branch_gone. Qed.
 Print Assumptions C01_removed_gone.
+
+(* ... and stays out in every continuation of the history *)
+Theorem C01_removed_never_returns : forall w ti n t s ops,
+  WFw w -> get_tree w ti = Some t -> get_node n (forest_of t) = Some s ->
+  forall m, In m (ids_t s) -> ~ In m (all_ids (run ops (snd (op_remove w ti n false false)))).
+Proof. exact removed_never_returns. Qed.
+Print Assumptions C01_removed_never_returns.
 
 Theorem C01_removed_children_gone : forall w ti n t ch,
   WFw w -> get_tree w ti = Some t -> children_of n (forest_of t) = Some ch ->
